@@ -66,6 +66,19 @@ pub assume_specification<T>[ bool::then_some ](b: bool, t: T) -> (r: Option<T>)
 // sway_types::U256 -- extracted from sway-types/src/u256.rs; contracts spliced (R2), `&a op &b` in method form (R4)
 // =====================================================================================================
 @U256_STRUCT@
+// #[derive(PartialEq, PartialOrd)] on `struct U256(BigUint)`: ASSUMED to compare the wrapped values
+impl PartialEq for U256 { #[verifier::external_body] fn eq(&self, o: &U256) -> bool { unimplemented!() } }
+impl PartialEqSpecImpl for U256 {
+    open spec fn obeys_eq_spec() -> bool { true }
+    open spec fn eq_spec(&self, o: &U256) -> bool { self.0@ == o.0@ }
+}
+impl PartialOrd for U256 { #[verifier::external_body] fn partial_cmp(&self, o: &U256) -> Option<core::cmp::Ordering> { unimplemented!() } }
+impl PartialOrdSpecImpl for U256 {
+    open spec fn obeys_partial_cmp_spec() -> bool { true }
+    open spec fn partial_cmp_spec(&self, o: &U256) -> Option<core::cmp::Ordering> {
+        if self.0@ < o.0@ { Some(core::cmp::Ordering::Less) } else if self.0@ == o.0@ { Some(core::cmp::Ordering::Equal) } else { Some(core::cmp::Ordering::Greater) }
+    }
+}
 /// type invariant of every U256 the compiler builds from a literal or from a checked operation
 pub open spec fn wf(x: &U256) -> bool { x.0@ < pow2(256) }
 
